@@ -10,8 +10,10 @@ package main
 import (
 	"fmt"
 	"math/rand"
+	"os"
 	"sort"
 	"strings"
+	"sync"
 	"time"
 
 	endpointv3 "github.com/envoyproxy/go-control-plane/envoy/config/endpoint/v3"
@@ -20,6 +22,7 @@ import (
 	"google.golang.org/protobuf/types/known/anypb"
 
 	"istio.io/istio/pilot/pkg/model"
+	"istio.io/istio/pilot/pkg/xds"
 	xdsfake "istio.io/istio/pilot/test/xds"
 	"istio.io/istio/pkg/config"
 	"verifharness/internal/envoyclient"
@@ -40,7 +43,7 @@ func prop(id, rule string, run func(c *vh.Ctx)) vh.Prop {
 			"comparison is proto.Equal per resource name; inside a ClusterLoadAssignment lb_endpoints and localities are compared as sets; a resource that the same server regenerates differently without any change (nondeterminism, property C17) is excluded and counted",
 		},
 		Anchors:       []string{"pilot/pkg/xds/", "pkg/xds/server.go"},
-		MinNontrivial: func(t string) int { return map[string]int{"quick": 6, "thorough": 100}[t] },
+		MinNontrivial: func(t string) int { return map[string]int{"quick": 12, "thorough": 150}[t] },
 		Batches:       func(t string) int { return map[string]int{"quick": 6, "thorough": 14}[t] },
 		Parallel:      func(t string) int { return map[string]int{"quick": 6, "thorough": 14}[t] },
 		TimeoutSec:    func(t string) int { return map[string]int{"quick": 1200, "thorough": 5400}[t] },
@@ -101,13 +104,97 @@ func newClient(p proxySpec, delta bool, suffix string) *envoyclient.Client {
 type server struct {
 	f   *vh.F
 	srv *xdsfake.FakeDiscoveryServer
-	gen *genStats
+	gen    *genStats
+	pushes *pushLog
+}
+
+// pushLog records, per proxy, what each push request looked like before and after the
+// server's own per-proxy dependency filtering (public ProxyNeedsPush hook point).
+type pushEntry struct {
+	in, out []string
+	forced  bool
+	pushed  bool
+}
+
+type pushLog struct {
+	mu sync.Mutex
+	by map[string][]pushEntry
+}
+
+func (p *pushLog) add(id string, e pushEntry) {
+	p.mu.Lock()
+	p.by[id] = append(p.by[id], e)
+	if len(p.by[id]) > 400 {
+		p.by[id] = p.by[id][200:]
+	}
+	p.mu.Unlock()
+}
+
+// serviceKeyDropped reports whether some push for the proxy carried the ServiceEntry key of the
+// hostname while the request handed to the generators did not (dependency filter dropped it).
+func (p *pushLog) serviceKeyDropped(proxyID, hostname string) bool {
+	p.mu.Lock()
+	defer p.mu.Unlock()
+	for _, e := range p.by[proxyID] {
+		for _, k := range e.in {
+			if strings.HasPrefix(k, "ServiceEntry/") && strings.HasSuffix(k, "/"+hostname) {
+				kept := false
+				for _, o := range e.out {
+					if o == k {
+						kept = true
+					}
+				}
+				if !kept {
+					return true
+				}
+			}
+		}
+	}
+	return false
+}
+
+func keyStrings(req *model.PushRequest) []string {
+	if req == nil {
+		return nil
+	}
+	ks := make([]string, 0, len(req.ConfigsUpdated))
+	for k := range req.ConfigsUpdated {
+		ks = append(ks, k.String())
+	}
+	sort.Strings(ks)
+	return ks
+}
+
+// causeOf classifies a resource a delta client kept although it ceased to exist.
+func (s *server) causeOf(p proxySpec, t, name string) string {
+	if t == envoyclient.CDS || t == envoyclient.EDS {
+		_, _, h, _ := model.ParseSubsetKey(name)
+		if h != "" && s.pushes.serviceKeyDropped(p.name+"."+p.ns, string(h)) {
+			return "service-key-dropped-by-proxy-dependency-filter"
+		}
+	}
+	return "unknown"
 }
 
 func newServer(cfgs []config.Config, debounce time.Duration) *server {
 	f := vh.NewF()
 	srv := xdsfake.NewFakeDiscoveryServer(f, xdsfake.FakeOptions{Configs: cfgs, DebounceTime: debounce})
-	return &server{f: f, srv: srv, gen: wrapGenerators(srv.Discovery)}
+	pl := &pushLog{by: map[string][]pushEntry{}}
+	trace := os.Getenv("XDSCONV_TRACE") != ""
+	srv.Discovery.ProxyNeedsPush = func(proxy *model.Proxy, req *model.PushRequest) (*model.PushRequest, bool) {
+		in := keyStrings(req)
+		r2, ok := xds.DefaultProxyNeedsPush(proxy, req)
+		var out []string
+		if ok {
+			out = keyStrings(r2)
+		}
+		pl.add(proxy.ID, pushEntry{in: in, out: out, forced: req.Forced, pushed: ok})
+		if trace {
+			fmt.Printf("TRACE push proxy=%s forced=%v keys=%v kept=%v needsPush=%v\n", proxy.ID, req.Forced, in, out, ok)
+		}
+		return r2, ok
+	}
+	return &server{f: f, srv: srv, gen: wrapGenerators(srv.Discovery), pushes: pl}
 }
 
 func (s *server) idleCond() bool {
@@ -403,7 +490,12 @@ func (w *world) checkAgainstFresh(s *server, clients []*envoyclient.Client, pidx
 			}
 			if same(r2, rf) {
 				// the client held something else until a forced push made the server resend it
-				c.Violation(fmt.Sprintf("%s:stale-until-forced-push:%s:proxy=%s:changed=%s", prefix, envoyclient.Short(t), proxies[pidx[i]].ptype, w.changedKinds()),
+				cause := s.causeOf(proxies[pidx[i]], t, n)
+				ckey := "cause=" + cause
+				if cause == "unknown" {
+					ckey += ":changed=" + w.changedKinds()
+				}
+				c.Violation(fmt.Sprintf("%s:stale-until-forced-push:%s:proxy=%s:client=%s:%s:%s", prefix, envoyclient.Short(t), proxies[pidx[i]].ptype, protoOf(cl), whatKey(d.What), ckey),
 					fmt.Sprintf("%s client %s: %s; a forced push brings it to the fresh state, so a push that should have carried it was skipped or narrowed. %s. diff: %s",
 						prefix, cl.Name, d, ctxInfo, firstTextDiff(resourceText(t, r1), resourceText(t, rf))),
 					map[string]any{"client": cl.Name, "scenario": w.scenInfo[cl.Name], "resource": d.String(), "history": histText(w.hist, w.applied), "context": ctxInfo})
@@ -431,6 +523,13 @@ func (w *world) checkAgainstFresh(s *server, clients []*envoyclient.Client, pidx
 		}
 	}
 	return compared, true
+}
+
+func protoOf(cl *envoyclient.Client) string {
+	if cl.Delta {
+		return "delta"
+	}
+	return "sotw"
 }
 
 func whatKey(w string) string {
@@ -502,7 +601,7 @@ func runC01(c *vh.Ctx) { runHistories(c, true, false) }
 func runC03(c *vh.Ctx) { runHistories(c, false, true) }
 
 func runHistories(c *vh.Ctx, c01, c03 bool) {
-	n := c.N(12, 250)
+	n := c.N(48, 600)
 	for i := 0; i < n; i++ {
 		if !c.Mine(i) {
 			continue
@@ -577,7 +676,12 @@ func runHistories(c *vh.Ctx, c01, c03 bool) {
 									c.Count("excluded_nondeterministic", 1)
 									continue
 								}
-								c.Violation(fmt.Sprintf("c03:delta-differs-from-sotw:%s:proxy=%s:%s:changed=%s", envoyclient.Short(d.Type), proxies[pi].ptype, whatKey2(d.What), kindsOf(b)),
+								cause := w.a.causeOf(proxies[pi], d.Type, d.Name)
+								ckey := "cause=" + cause
+								if cause == "unknown" {
+									ckey += ":changed=" + kindsOf(b)
+								}
+								c.Violation(fmt.Sprintf("c03:delta-differs-from-sotw:%s:proxy=%s:%s:%s", envoyclient.Short(d.Type), proxies[pi].ptype, whatKey2(d.What), ckey),
 									fmt.Sprintf("after batch %d the delta client of %s and its SotW twin disagree: %s; diff: %s", bi, proxies[pi].name, d,
 										firstTextDiff(resourceText(d.Type, hd[d.Type][d.Name]), resourceText(d.Type, hs[d.Type][d.Name]))),
 									map[string]any{"proxy": proxies[pi].name, "resource": d.String(), "history": histText(hist, bi+1)})
